@@ -288,9 +288,34 @@ pub struct ClosePlan {
     pub side: Side,
 }
 
+#[derive(Clone, Copy, PartialEq, Eq, Debug, Hash)]
+pub enum Drv {
+    Uring,
+    Poll,
+}
+
+impl Drv {
+    pub fn name(self) -> &'static str {
+        match self {
+            Drv::Uring => "io-uring",
+            Drv::Poll => "poll",
+        }
+    }
+
+    pub fn parse(s: &str) -> Drv {
+        match s {
+            "io-uring" => Drv::Uring,
+            "poll" => Drv::Poll,
+            _ => vcore::machinery_error(&format!("bad driver {s}")),
+        }
+    }
+}
+
 #[derive(Clone, Debug)]
 pub struct RunSpec {
     pub row: Row,
+    /// compio driver the runtime of this execution is built on
+    pub driver: Drv,
     /// set up the probe streams (part B runs, including the un-closed reference run)
     pub probes: bool,
     pub close: Option<ClosePlan>,
@@ -300,6 +325,7 @@ impl RunSpec {
     pub fn json(&self) -> Value {
         json!({
             "row": self.row.json(),
+            "driver": self.driver.name(),
             "probes": self.probes,
             "close": self.close.map(|c| json!({"k": c.k, "kind": c.kind.name(), "side": c.side.name()})),
         })
@@ -315,7 +341,7 @@ impl RunSpec {
                 side: Side::parse(v["close"]["side"].as_str().unwrap_or("")),
             })
         };
-        RunSpec { row: Row::from_json(&v["row"]), probes: v["probes"].as_bool().unwrap_or(false), close }
+        RunSpec { row: Row::from_json(&v["row"]), driver: Drv::parse(v["driver"].as_str().unwrap_or("io-uring")), probes: v["probes"].as_bool().unwrap_or(false), close }
     }
 }
 
